@@ -374,9 +374,29 @@ def main(argv=None):
     except subprocess.TimeoutExpired as e:
         print(f"infrastructure failure: timeout {e}", file=sys.stderr)
         rc = 2
-    except Exception:
+    except Exception as e:
         traceback.print_exc()
         rc = 2
+        # An exception raised INSIDE the implementation under test (innermost frame in the synkit package) that no stream
+        # caught is not an infrastructure failure: the correspondence run could not be completed on this tree, so the
+        # property is no longer shown to hold.  It is reported as a violation without a failing input (the traceback is the
+        # replay); exceptions raised by the harness itself stay exit 2.
+        try:
+            frames = traceback.extract_tb(e.__traceback__)
+            inner = frames[-1].filename if frames else ""
+            root = str(ROOT)
+            if f"{os.sep}synkit{os.sep}" in inner and not inner.startswith(root):
+                rdir = (Path(os.environ["VERIF_REPLAY_DIR"]) if os.environ.get("VERIF_REPLAY_DIR") else ROOT / "replays") / pid
+                rdir.mkdir(parents=True, exist_ok=True)
+                f = rdir / f"{a.tier}-seed{seed}-uncaught.json"
+                f.write_text(json.dumps({"property": pid, "seed": seed, "tier": a.tier, "no_input": True,
+                                         "what": "correspondence: the implementation raised an exception no stream expected; "
+                                                 "the run could not be completed", "exception": repr(e)[:500],
+                                         "traceback": traceback.format_exception(type(e), e, e.__traceback__)[-12:]}, indent=1))
+                print(f"VIOLATION property={pid} replay={f} no-failing-input-found")
+                rc = 1
+        except Exception:      # noqa: BLE001 - reporting must not mask the original failure
+            pass
     sys.exit(rc)
 
 
